@@ -11,6 +11,7 @@ mod interp;
 mod pairs;
 mod planobs;
 mod polobs;
+mod psbtobs;
 mod sat;
 mod types;
 mod uni;
@@ -50,6 +51,7 @@ fn main() {
             "interp" => interp::run_case(&u, &case),
             "plan" => planobs::run_case(&u, &case),
             "policy" => polobs::run_case(&u, &case),
+            "psbt" => psbtobs::run_case(&u, &case),
             _ => {
                 eprintln!("unknown command {}", cmd);
                 std::process::exit(2);
